@@ -813,6 +813,11 @@ func (c *SpecCtx) trCall(x *SCall) Term {
 		return Term{sIte(cc.S, a.S, b.S), a.Sort}
 	case "int":
 		return c.tr(x.Args[0])
+	case "runeAt", "runeSz": // the rune decoded at a byte offset of a string / its size in bytes (uninterpreted, see range over string)
+		vc.U.ensureFun("runeAt", "(Str Int) Int")
+		vc.U.ensureFun("runeSz", "(Str Int) Int")
+		a, b := c.tr(x.Args[0]), c.tr(x.Args[1])
+		return Term{"(" + specText(x.Fun) + " " + a.S + " " + b.S + ")", sortInt}
 	case "emptyset":
 		_, s := c.resolveType(specText(x.Args[0]))
 		ss := vc.U.setSort(s)
